@@ -2,11 +2,11 @@ package main
 
 import (
 	"context"
-	"regexp"
 	"fmt"
 	"os"
 	"os/exec"
 	"path/filepath"
+	"regexp"
 	"strings"
 	"sync"
 	"time"
